@@ -1115,6 +1115,12 @@ func validTables(repo string, args []string) (string, error) {
 	if err != nil {
 		return "", err
 	}
+	// what the loader keeps from one rule of a group to the next
+	gs, err := loadGroupStateCoq(l, []*ast.File{f, utils})
+	if err != nil {
+		return "", err
+	}
+	sb.WriteString(gs)
 	var sites []string
 	scan := func(file *ast.File, only map[string]bool) {
 		for _, d := range file.Decls {
